@@ -676,6 +676,10 @@ func (eval Evaluator) MulRelinNew(op0 *rlwe.Ciphertext, op1 rlwe.Operand) (opOut
 
 func (eval Evaluator) tensorStandard(op0 *rlwe.Ciphertext, op1 *rlwe.Element[ring.Poly], relin bool, opOut *rlwe.Ciphertext) (err error) {
 
+	if op0.Degree() == 0 {
+		return fmt.Errorf("op0 must be of degree at least 1 (a plaintext operand is expected as op1)")
+	}
+
 	level := opOut.Level()
 
 	opOut.Scale = op0.Scale.Mul(op1.Scale)
@@ -985,6 +989,10 @@ func (eval Evaluator) MulRelinScaleInvariantNew(op0 *rlwe.Ciphertext, op1 rlwe.O
 
 // tensorScaleInvariant computes (ct0 x ct1) * (t/Q) and stores the result in opOut.
 func (eval Evaluator) tensorScaleInvariant(ct0 *rlwe.Ciphertext, ct1 *rlwe.Element[ring.Poly], relin bool, opOut *rlwe.Ciphertext) (err error) {
+
+	if ct0.Degree() == 0 {
+		return fmt.Errorf("op0 must be of degree at least 1 (a plaintext operand is expected as op1)")
+	}
 
 	level := opOut.Level()
 
@@ -1299,6 +1307,10 @@ func (eval Evaluator) MulRelinThenAdd(op0 *rlwe.Ciphertext, op1 rlwe.Operand, op
 }
 
 func (eval Evaluator) mulRelinThenAdd(op0 *rlwe.Ciphertext, op1 *rlwe.Element[ring.Poly], relin bool, opOut *rlwe.Ciphertext) (err error) {
+
+	if op0.Degree() == 0 {
+		return fmt.Errorf("op0 must be of degree at least 1 (a plaintext operand is expected as op1)")
+	}
 
 	level := opOut.Level()
 
